@@ -32,8 +32,11 @@ static OPERATION_REGEX: Lazy<Regex> =
     // at the start, whitespace, then `Type.field` (with optional whitespace around the dot),
     // where both are identifiers.
     Lazy::new(|| {
-        Regex::new(r"^(entrypoint|field|pointer)\s+([A-Za-z_][A-Za-z0-9_]*)\s*\.\s*([A-Za-z_][A-Za-z0-9_]*)")
-            .unwrap()
+        // (the Isograph lexer also skips the byte order mark U+FEFF, which `\s` does not match)
+        Regex::new(
+            r"^[\s\u{feff}]*(entrypoint|field|pointer)[\s\u{feff}]+([A-Za-z_][A-Za-z0-9_]*)[\s\u{feff}]*\.[\s\u{feff}]*([A-Za-z_][A-Za-z0-9_]*)",
+        )
+        .unwrap()
     });
 
 #[derive(Deserialize)]
